@@ -1301,6 +1301,8 @@ def _own_nodes(fn):
     stack = list(fn.body)
     while stack:
         n = stack.pop()
+        if isinstance(n, (ast.FunctionDef, ast.ClassDef, ast.Lambda)):
+            continue        # a nested definition: its body is not code of this function (a nested generator does not make the outer function one)
         yield n
         for c in ast.iter_child_nodes(n):
             if not isinstance(c, (ast.FunctionDef, ast.ClassDef, ast.Lambda)):
